@@ -379,28 +379,49 @@ def _retention_age(m):
 
 
 # ----------------------------------------------------------------------------- _terminate_file
-def _is_retention_block(m, stmts):
-    """`L = {f for p in self._glob_patterns for f in glob.glob(p) if os.path.isfile(f)}` then
-    `self._retention_function(list(L))` (a list comprehension would hand duplicates on: refused)"""
+def _filter_term(m, node, var):
+    """the `if` of the set comprehension as a function of the entry's file type: Boolean combinations
+    of os.path.isfile / isdir / exists applied to the comprehension variable.  Anything else (islink,
+    lstat, name tests, …) fails closed."""
+    if isinstance(node, ast.BoolOp):
+        parts = [_filter_term(m, v, var) for v in node.values]
+        return "(" + (" && " if isinstance(node.op, ast.And) else " || ").join(parts) + ")"
+    if isinstance(node, ast.UnaryOp) and isinstance(node.op, ast.Not):
+        return "(!%s)" % _filter_term(m, node.operand, var)
+    if isinstance(node, ast.Call) and len(node.args) == 1 and not node.keywords \
+            and isinstance(node.args[0], ast.Name) and node.args[0].id == var:
+        pred = {"os.path.isfile": "isfile", "os.path.isdir": "isdir", "os.path.exists": "pathExists"}.get(m.qual(node.func))
+        if pred is not None:
+            return "k.%s" % pred
+    raise Unsupported("retention filter: " + _norm(node))
+
+
+def _retention_block_filter(m, stmts):
+    """`L = {f for p in self._glob_patterns for f in glob.glob(p) if <filter(f)>}` then
+    `self._retention_function(list(L))` (a list comprehension would hand duplicates on: refused).
+    Returns the Lean term of the filter, or None when the block has another shape."""
     if len(stmts) != 2:
-        return False
+        return None
     a, c = stmts
     if not (isinstance(a, ast.Assign) and len(a.targets) == 1 and isinstance(a.targets[0], ast.Name)
             and isinstance(a.value, ast.SetComp) and len(a.value.generators) == 2):
-        return False
+        return None
     L = a.targets[0].id
     g1, g2 = a.value.generators
     if not (isinstance(g1.target, ast.Name) and not g1.ifs and _norm(g1.iter) == "self._glob_patterns"
             and isinstance(g2.target, ast.Name) and m.is_call(g2.iter, "glob.glob", 1)
             and isinstance(g2.iter.args[0], ast.Name) and g2.iter.args[0].id == g1.target.id
-            and len(g2.ifs) == 1 and m.is_call(g2.ifs[0], "os.path.isfile", 1)
-            and isinstance(g2.ifs[0].args[0], ast.Name) and g2.ifs[0].args[0].id == g2.target.id
             and isinstance(a.value.elt, ast.Name) and a.value.elt.id == g2.target.id
             and g1.target.id != g2.target.id):
-        return False
-    return (isinstance(c, ast.Expr) and isinstance(c.value, ast.Call) and _norm(c.value.func) == "self._retention_function"
+        return None
+    if not (isinstance(c, ast.Expr) and isinstance(c.value, ast.Call) and _norm(c.value.func) == "self._retention_function"
             and len(c.value.args) == 1 and not c.value.keywords and m.is_call(c.value.args[0], "list", 1)
-            and isinstance(c.value.args[0].args[0], ast.Name) and c.value.args[0].args[0].id == L)
+            and isinstance(c.value.args[0].args[0], ast.Name) and c.value.args[0].args[0].id == L):
+        return None
+    if not g2.ifs:
+        return "true"
+    terms = [_filter_term(m, t, g2.target.id) for t in g2.ifs]
+    return terms[0] if len(terms) == 1 else "(" + " && ".join(terms) + ")"
 
 
 def _terminate(m):
@@ -432,13 +453,16 @@ def _terminate(m):
     rets = [s for s in inner if isinstance(s, ast.If) and _norm(s.test) == "self._retention_function is not None"]
     if len(rets) != 1 or inner[-1] is not rets[0] or rets[0].orelse:
         raise Unsupported("retention block is not the last statement of its guard")
-    if not _is_retention_block(m, rets[0].body):
+    fterm = _retention_block_filter(m, rets[0].body)
+    if fterm is None:
         raise Unsupported("retention block changed: %r" % ([_norm(s) for s in rets[0].body],))
     n_calls = sum(1 for x in ast.walk(fn) if isinstance(x, ast.Call) and _norm(x.func) == "self._retention_function")
     if n_calls != 1:
         raise Unsupported("_terminate_file calls the retention function %d times" % n_calls)
     out = "/-- guard of the compression/retention block: `%s` -/\n" % _norm(guard.test)
     out += "def retentionGuard (is_rotating rotation_is_none : Bool) : Bool := %s\n" % gterm
+    out += "/-- which globbed entries are handed to the policy, by file type (links followed) -/\n"
+    out += "def retentionFilter (k : Kind) : Bool := %s\n" % fterm
     out += "/-- is the guard placed before `if is_rotating: self._create_file(new_path)`?  (statement indices) -/\n"
     out += "def guardIndex : Nat := %d\ndef createIndex : Nat := %d\n\n" % (idx_guard, idx_create)
     w = find_func(m.tree, "write", cls="FileSink")
@@ -727,7 +751,7 @@ def _parse_duration(m):
 
 def generate():
     errors = []
-    body = "import LoguruModel.Py.Basic\nset_option linter.unusedVariables false\nnamespace Retention.Gen\n\n"
+    body = "import LoguruModel.Retention.Base\nset_option linter.unusedVariables false\nnamespace Retention.Gen\n\n"
     try:
         tree, _ = parse_module("_file_sink.py")
         m = Mod(tree)
